@@ -28,6 +28,24 @@ var ownedParamTypes = map[string]bool{
 var readOnlyPkgs = map[string]bool{"fmt": true, "errors": true, "strconv": true, "strings": true, "unicode": true, "unicode/utf8": true, "math": true,
 	"regexp": true, "encoding/json": true, "github.com/mitchellh/pointerstructure": true, "bytes": true}
 
+// readOnlyPtrMethods: the pointer-receiver methods of the read-only packages that leave their receiver as it is (read in
+// the dependency's source); every other pointer-receiver method of those packages counts as a write to the receiver.
+var readOnlyPtrMethods = map[string]bool{
+	"regexp.Match": true, "regexp.MatchString": true, "regexp.MatchReader": true, "regexp.String": true, "regexp.NumSubexp": true, "regexp.SubexpNames": true,
+	"regexp.SubexpIndex": true, "regexp.LiteralPrefix": true, "regexp.Find": true, "regexp.FindIndex": true, "regexp.FindString": true, "regexp.FindStringIndex": true,
+	"regexp.FindSubmatch": true, "regexp.FindStringSubmatch": true, "regexp.FindAll": true, "regexp.FindAllString": true, "regexp.ReplaceAll": true, "regexp.ReplaceAllString": true,
+	"github.com/mitchellh/pointerstructure.Get": true, "github.com/mitchellh/pointerstructure.Parent": true, "github.com/mitchellh/pointerstructure.String": true,
+	"github.com/mitchellh/pointerstructure.IsRoot": true,
+	"strings.String": true, "strings.Len": true, "strings.Cap": true, "bytes.String": true, "bytes.Len": true, "bytes.Bytes": true, "bytes.Cap": true,
+	"errors.Error": true, "fmt.Error": true, "fmt.Unwrap": true, "strconv.Error": true, "strconv.Unwrap": true, "encoding/json.Error": true,
+}
+
+// argMutators: package-level functions of the read-only packages that write through one of their arguments (its index).
+var argMutators = map[string]int{
+	"github.com/mitchellh/pointerstructure.Set": 0, "encoding/json.Unmarshal": 1, "fmt.Fprintf": 0, "fmt.Fprint": 0, "fmt.Fprintln": 0,
+	"fmt.Sscan": 1, "fmt.Sscanf": 2, "fmt.Fscan": 1,
+}
+
 var reflectMutators = map[string]bool{"Set": true, "SetBool": true, "SetInt": true, "SetUint": true, "SetFloat": true, "SetString": true, "SetBytes": true, "SetLen": true,
 	"SetCap": true, "SetMapIndex": true, "SetIterKey": true, "SetIterValue": true, "SetComplex": true, "SetPointer": true, "SetZero": true, "Grow": true, "Clear": true}
 
@@ -321,6 +339,18 @@ func collectWrites(prog *Program, fns []*ssa.Function) (writes []writeSite, boun
 						continue
 					}
 					boundary[pp]++
+					if readOnlyPkgs[pp] {
+						// a package that only reads what it is given — except through the methods that are there to change
+						// their receiver ((*Regexp).Longest, (*Pointer).Set, a Builder's writes) and the functions that fill
+						// in an argument: those write to the object they are applied to
+						if rv := callee.Signature.Recv(); rv != nil && len(x.Call.Args) > 0 {
+							if _, isPtr := rv.Type().Underlying().(*types.Pointer); isPtr && !readOnlyPtrMethods[pp+"."+name] {
+								writes = append(writes, writeSite{fn, ins, "call to " + callee.String() + " (changes its receiver)", classifyRoot(prog, x.Call.Args[0], map[ssa.Value]bool{})})
+							}
+						} else if k, isMut := argMutators[pp+"."+name]; isMut && k < len(x.Call.Args) {
+							writes = append(writes, writeSite{fn, ins, "call to " + callee.String() + " (fills in its argument)", classifyRoot(prog, x.Call.Args[k], map[ssa.Value]bool{})})
+						}
+					}
 					if !readOnlyPkgs[pp] {
 						writes = append(writes, writeSite{fn, ins, "call to " + callee.String(), rootClass{"unknown", "external effect not on the read-only list"}})
 					}
